@@ -253,11 +253,16 @@ inductive GoVal where
 /-- `uint64(v)` for the integer kinds: sign extension to 64 bits. -/
 def ival (v : Int) : Nat := lowBits v 64
 
-/-- `setInt`: writes the 64 bits of `uint64(val)` at `ofs` whatever the width
-of the type; returns `ofs + t.Bits`. -/
+/-- bit `i` that `setInt` writes for `uint64(val)` = `iv`: the two's complement
+form, sign-extended above bit 63 (`negative`: a signed kind with `v < 0`). -/
+def setIntBit (iv : Nat) (negative : Bool) (i : Nat) : Bool :=
+  if i < 64 then iv.testBit i else negative
+
+/-- `setInt` (since commit 95af76e): writes exactly `t.Bits` bits at `ofs`;
+returns `ofs + t.Bits`. -/
 def setInt (t : Info) (r : Nat) (val : GoVal) (ofs : Nat) : Except Err (Nat × Nat) :=
   match val with
-  | .num _ _ v => .ok (writeBits r ofs 64 ((ival v).testBit), ofs + t.bits)
+  | .num s _ v => .ok (writeBits r ofs t.bits (setIntBit (ival v) (s && decide (v < 0))), ofs + t.bits)
   | _ => .error .input
 
 /-- `setBool` -/
@@ -269,7 +274,7 @@ def setBool (r : Nat) (val : GoVal) (ofs : Nat) : Except Err (Nat × Nat) :=
 /-- the `[]byte` loop of `setIntArray` (the error of `setInt` is ignored by
 the Go code; a `uint8` never produces one) -/
 def setBytes (el : Info) (r : Nat) (bs : List Nat) (ofs : Nat) : Nat × Nat :=
-  bs.foldl (fun (p : Nat × Nat) b => (writeBits p.1 p.2 64 ((b % 256).testBit), p.2 + el.bits)) (r, ofs)
+  bs.foldl (fun (p : Nat × Nat) b => (writeBits p.1 p.2 el.bits (setIntBit (b % 256) false), p.2 + el.bits)) (r, ofs)
 
 /-- `setArray` + `setIntArray`: returns (element count, result, ofs). -/
 def setArray (el : Info) (r : Nat) (val : GoVal) (ofs : Nat) : Except Err (Nat × Nat × Nat) :=
@@ -442,8 +447,8 @@ def decodeString (z : Int) (bits : Nat) : String :=
 def widthClass (bits : Nat) : Nat :=
   if bits ≤ 8 then 8 else if bits ≤ 16 then 16 else if bits ≤ 32 then 32 else if bits ≤ 64 then 64 else 0
 
-/-- reflect element type chosen for an array result; `none` is
-`reflect.TypeOf(nil)`, on which `reflect.SliceOf` panics. -/
+/-- reflect element type chosen by the explicit cases of the element-type
+switch; `none` is the `default:` branch. -/
 def elemTypeName (el : Info) : Option String :=
   match el.tag with
   | .string => some "string"
@@ -451,6 +456,27 @@ def elemTypeName (el : Info) : Option String :=
   | .int => some (if widthClass el.bits = 0 then "big" else s!"int{widthClass el.bits}")
   | .bool => some "bool"
   | _ => none
+
+/-- name of the dynamic Go type of a value returned by `Result` -/
+def rvalTypeName : RVal → String
+  | .str _ => "string"
+  | .u w _ => s!"uint{w}"
+  | .i w _ => s!"int{w}"
+  | .big _ => "big"
+  | .bool _ => "bool"
+  | .slice n _ => "[]" ++ n
+  | .fmt _ => "string"
+
+/-- the element type of the result slice; `zero` is
+`Result(new(big.Int), IOArg{Type: *ElementType})`, which the `default:` branch
+evaluates to obtain the type (commit 74f1961) and which may panic. -/
+def elemName (el : Info) (zero : Except Err (RVal × Int)) : Except Err String :=
+  match elemTypeName el with
+  | some n => .ok n
+  | none =>
+    match zero with
+    | .ok (v, _) => .ok (rvalTypeName v)
+    | .error e => .error e
 
 /-- the element decoder's value (its `*big.Int` is a fresh temporary) -/
 def dropCell : Except Err (RVal × Int) → Except Err RVal
@@ -479,9 +505,9 @@ def result : Info → Int → Except Err (RVal × Int)
       match t with
       | .base _ _ _ => .error .panic
       | .elem _ _ count el =>
-        match elemTypeName el with
-        | none => .error .panic
-        | some name =>
+        match elemName el (result el 0) with
+        | .error e => .error e
+        | .ok name =>
           let elSize := el.bits
           let vs : Except Err (List RVal) := (List.range count).mapM (fun i =>
             dropCell (result el (lowBits (rsh z (i * elSize)) elSize)))
